@@ -16,6 +16,7 @@ Definition l1_op (d : wdecl) (o : op) : bool :=
                 | ODestroy (LArch b) KEnt TAny (RRaw key ver) => (b <? length (wd_archs d)) && (key <? 2^32)%N && (ver <? 2^32)%N
                 | OToDirect LWorld KEnt TAny (RRaw key ver) => (key <? 2^32)%N && (ver <? 2^32)%N
                 | OToDirect (LArch b) KEnt TAny (RRaw key ver) => (b <? length (wd_archs d)) && (key <? 2^32)%N && (ver <? 2^32)%N
+                | OConv KEnt (RRaw key ver) => true
                 | _ => false
                 end.
 
@@ -497,7 +498,7 @@ Lemma rel_step1 cfg d qs st sst o : wrapping cfg = false -> wf_decl d -> NoDup (
 Proof.
   intros Hwr Hwf Hnd HR Hl1. destruct (l0_op d o) eqn:Hl0; [by apply rel_step|].
   unfold l1_op in Hl1. rewrite Hl0 in Hl1. cbn [orb] in Hl1.
-  destruct o as [| | | | | |l k t r|l k t r|l k t r| | | | | | | | | | | | | |]; try done.
+  destruct o as [| | | | | |l k t r|l k t r|l k t r| | | | | | | | | | | | |k0 r0|]; try done.
   - destruct k; [|by destruct l]. destruct t; try (by destruct l). destruct r as [|?|key ver]; try (by destruct l).
     destruct l as [|b].
     + apply andb_true_iff in Hl1 as [H1 H2]. apply N.ltb_lt in H1, H2. by apply rel_step_destroy_raw.
@@ -516,6 +517,12 @@ Proof.
     + apply andb_true_iff in Hl1 as [H1 H2]. apply N.ltb_lt in H1, H2. by apply rel_step_todirect_raw.
     + apply andb_true_iff in Hl1 as [H0 H2]. apply andb_true_iff in H0 as [H0 H1]. apply N.ltb_lt in H1, H2. apply Nat.ltb_lt in H0.
       by apply rel_step_todirect_raw.
+  - (* the handle conversions: no state *)
+    destruct k0; [|done]. destruct r0 as [|?|key ver]; try done.
+    pose proof (conv_step_accepted cfg d qs st sst key ver) as Hc.
+    destruct (step cfg d qs st (OConv KEnt (RRaw key ver))) as [[st' obs]|] eqn:Hst; [|done]. destruct Hc as [-> Hsp].
+    exists st, obs, sst. split_and!; [done| |done|done].
+    cbn [step get_href ret] in Hst. injection Hst as <-. unfold conv_obs. by destruct (from_raw (key, ver)).
 Qed.
 
 Lemma rel_run1 cfg d qs ops : wrapping cfg = false -> wf_decl d -> NoDup (da_id <$> wd_archs d) ->
